@@ -184,7 +184,9 @@ theorem zDeleteRank_wf (h : WF db) (k : Bytes) (a b now : Int) :
   unfold zDeleteRank
   split
   · exact h
-  · exact zDeleteWhere_wf h k _ now
+  · split
+    · exact h
+    · exact zDeleteWhere_wf h k _ now
 
 theorem zDeleteScore_wf (h : WF db) (k : Bytes) (lo hi : Score) (now : Int) :
     WF (zDeleteScore db k lo hi now).db := zDeleteWhere_wf h k _ now
